@@ -3,6 +3,7 @@
 CONSTANTS
   MaxConj = 2
   MaxAlt = 2
+  MaxAtoms = 6
   MaxArch = 1
   MaxGroups = 1
   MaxTerms = 1
